@@ -99,11 +99,14 @@ class CaseResult:
 
 
 def first_repo_frame(err):
+    first = None
     for m in re.finditer(r"#\d+ 0x[0-9a-f]+ in (\S+) (\S+)", err):
         fn, loc = m.group(1), m.group(2)
         if "/repo/" in loc:
             return "%s(%s)" % (fn, os.path.basename(loc.split(":")[0]))
-    return "?"
+        if first is None and not fn.startswith("__interceptor") and not fn.startswith("__asan") and not fn.startswith("__sanitizer"):
+            first = fn
+    return "?" + (first or "")
 
 
 def fatal_line(err):
